@@ -116,9 +116,15 @@ fn dual_contents(cap2: usize) -> Vec<Content> {
     out
 }
 
+/// route index of each object = how many earlier objects have the same content
+fn routes_of(contents: &[Content]) -> Vec<usize> {
+    (0..contents.len()).map(|i| contents[..i].iter().filter(|c| **c == contents[i]).count()).collect()
+}
+
 struct Table {
     ty: usize,
     contents: Vec<Content>,
+    routes: Vec<usize>,
     /// cmp(i, j) as computed by the library
     cmp: Vec<Vec<Ordering>>,
 }
@@ -179,7 +185,71 @@ macro_rules! build_plain {
     };
 }
 
-fn with_objects<R>(ty: usize, contents: &[Content], f: &mut dyn FnMut(&dyn Fn(usize, usize) -> Result<Ordering, String>, &dyn Fn(&[usize]) -> Vec<usize>) -> R) -> R {
+/// The same contents built through a route that re-uses a previously used
+/// ("dirty") object: equal text must still mean ==, equal Hash and cmp Equal.
+fn reuse_route(ty: usize, c: &Content) -> Option<Content> {
+    // returns Some(content) when the route is applicable (the content is unchanged by construction)
+    match ty {
+        0 | 2 => Some(c.clone()),                       // long -> try_into_mut_short(dirty short)
+        1 | 3 if c.2.len() <= 32 => Some(c.clone()),    // short -> into_mut_long_form(dirty long)
+        4 | 5 => Some(c.clone()),                       // dual: init_from_raw_form on a dirty dual
+        _ => None,
+    }
+}
+fn build_reused_rs(c: &Content) -> RawFuzzyHash {
+    let mut d = RawFuzzyHash::new_from_internals_near_raw(30, &[63; 64], &[63; 32]);
+    LongRawFuzzyHash::new_from_internals_near_raw(c.0, &c.1, &c.2).try_into_mut_short(&mut d).unwrap();
+    d
+}
+fn build_reused_rl(c: &Content) -> LongRawFuzzyHash {
+    let mut d = LongRawFuzzyHash::new_from_internals_near_raw(30, &[63; 64], &[63; 64]);
+    RawFuzzyHash::new_from_internals_near_raw(c.0, &c.1, &c.2).into_mut_long_form(&mut d);
+    d
+}
+fn build_reused_ns(c: &Content) -> FuzzyHash {
+    let mut d = FuzzyHash::new_from_internals_near_raw(30, &ramp(64, 3), &ramp(32, 9));
+    LongFuzzyHash::new_from_internals_near_raw(c.0, &c.1, &c.2).try_into_mut_short(&mut d).unwrap();
+    d
+}
+fn build_reused_nl(c: &Content) -> LongFuzzyHash {
+    let mut d = LongFuzzyHash::new_from_internals_near_raw(30, &ramp(64, 3), &ramp(64, 9));
+    FuzzyHash::new_from_internals_near_raw(c.0, &c.1, &c.2).into_mut_long_form(&mut d);
+    d
+}
+fn build_reused_ds(c: &Content, dirt: usize) -> DualFuzzyHash {
+    let dirty_raw = if dirt == 0 {
+        RawFuzzyHash::new_from_internals_near_raw(30, &[63; 64], &[63; 32])
+    } else {
+        let mut a = vec![];
+        for k in 0..8u8 {
+            a.extend(vec![k + 1; 8]);
+        }
+        let mut b = vec![];
+        for k in 0..4u8 {
+            b.extend(vec![k + 40; 8]);
+        }
+        RawFuzzyHash::new_from_internals_near_raw(7, &a, &b)
+    };
+    let mut d = DualFuzzyHash::from_raw_form(&dirty_raw);
+    d.init_from_raw_form(&RawFuzzyHash::new_from_internals_near_raw(c.0, &c.1, &c.2));
+    d
+}
+fn build_reused_dl(c: &Content, dirt: usize) -> LongDualFuzzyHash {
+    let dirty_raw = if dirt == 0 {
+        LongRawFuzzyHash::new_from_internals_near_raw(30, &[63; 64], &[63; 64])
+    } else {
+        let mut a = vec![];
+        for k in 0..8u8 {
+            a.extend(vec![k + 1; 8]);
+        }
+        LongRawFuzzyHash::new_from_internals_near_raw(7, &a, &a)
+    };
+    let mut d = LongDualFuzzyHash::from_raw_form(&dirty_raw);
+    d.init_from_raw_form(&LongRawFuzzyHash::new_from_internals_near_raw(c.0, &c.1, &c.2));
+    d
+}
+
+fn with_objects<R>(ty: usize, contents: &[Content], routes: &[usize], f: &mut dyn FnMut(&dyn Fn(usize, usize) -> Result<Ordering, String>, &dyn Fn(&[usize]) -> Vec<usize>) -> R) -> R {
     macro_rules! go {
         ($objs:expr) => {{
             let objs = $objs;
@@ -192,13 +262,17 @@ fn with_objects<R>(ty: usize, contents: &[Content], f: &mut dyn FnMut(&dyn Fn(us
             f(&pc, &sorter)
         }};
     }
+    // the corpus is the contents followed by the same contents built through the re-use routes
+    // (`contents` may hold duplicates: index i and its duplicate are built through different routes)
+    let route_of = |i: usize| -> usize { routes[i] };
+    let _ = build_plain!(RawFuzzyHash, &contents[..0]);
     match ty {
-        0 => go!(build_plain!(RawFuzzyHash, contents)),
-        1 => go!(build_plain!(LongRawFuzzyHash, contents)),
-        2 => go!(build_plain!(FuzzyHash, contents)),
-        3 => go!(build_plain!(LongFuzzyHash, contents)),
-        4 => go!(build_plain!(DualFuzzyHash, contents)),
-        _ => go!(build_plain!(LongDualFuzzyHash, contents)),
+        0 => go!((0..contents.len()).map(|i| if route_of(i) == 0 { RawFuzzyHash::new_from_internals_near_raw(contents[i].0, &contents[i].1, &contents[i].2) } else { build_reused_rs(&contents[i]) }).collect::<Vec<_>>()),
+        1 => go!((0..contents.len()).map(|i| if route_of(i) == 0 { LongRawFuzzyHash::new_from_internals_near_raw(contents[i].0, &contents[i].1, &contents[i].2) } else { build_reused_rl(&contents[i]) }).collect::<Vec<_>>()),
+        2 => go!((0..contents.len()).map(|i| if route_of(i) == 0 { FuzzyHash::new_from_internals_near_raw(contents[i].0, &contents[i].1, &contents[i].2) } else { build_reused_ns(&contents[i]) }).collect::<Vec<_>>()),
+        3 => go!((0..contents.len()).map(|i| if route_of(i) == 0 { LongFuzzyHash::new_from_internals_near_raw(contents[i].0, &contents[i].1, &contents[i].2) } else { build_reused_nl(&contents[i]) }).collect::<Vec<_>>()),
+        4 => go!((0..contents.len()).map(|i| match route_of(i) { 0 => DualFuzzyHash::new_from_internals_near_raw(contents[i].0, &contents[i].1, &contents[i].2), r => build_reused_ds(&contents[i], r - 1) }).collect::<Vec<_>>()),
+        _ => go!((0..contents.len()).map(|i| match route_of(i) { 0 => LongDualFuzzyHash::new_from_internals_near_raw(contents[i].0, &contents[i].1, &contents[i].2), r => build_reused_dl(&contents[i], r - 1) }).collect::<Vec<_>>()),
     }
 }
 
@@ -212,8 +286,12 @@ fn cparse(v: &Value) -> Option<Content> {
 pub fn replay(c: &Value) -> Result<(), String> {
     let ty = TYPES.iter().position(|n| Some(*n) == c["type"].as_str()).ok_or("type")?;
     let objs: Vec<Content> = c["objects"].as_array().ok_or("objects")?.iter().filter_map(cparse).collect();
+    let routes: Vec<usize> = match c["routes"].as_array() {
+        Some(a) => a.iter().map(|x| x.as_u64().unwrap_or(0) as usize).collect(),
+        None => routes_of(&objs),
+    };
     let mut res = Ok(());
-    with_objects(ty, &objs, &mut |pc, sorter| {
+    with_objects(ty, &objs, &routes, &mut |pc, sorter| {
         res = (|| {
             match c["kind"].as_str() {
                 Some("pair") => {
@@ -246,9 +324,10 @@ pub fn replay(c: &Value) -> Result<(), String> {
 
 fn build_table(ty: usize, contents: Vec<Content>, acc: &mut Acc) -> Option<Table> {
     let n = contents.len();
+    let routes = routes_of(&contents);
     let mut cmp = vec![vec![Ordering::Equal; n]; n];
     let mut failed = false;
-    with_objects(ty, &contents, &mut |pc, _| {
+    with_objects(ty, &contents, &routes, &mut |pc, _| {
         for i in 0..n {
             for j in 0..n {
                 acc.evaluations += 1;
@@ -263,7 +342,7 @@ fn build_table(ty: usize, contents: Vec<Content>, acc: &mut Acc) -> Option<Table
                         acc.violation(
                             format!("{} pair {} | {}", TYPES[ty], rt::format(contents[i].0, &contents[i].1, &contents[i].2), rt::format(contents[j].0, &contents[j].1, &contents[j].2)),
                             e,
-                            json!({"kind":"pair","type":TYPES[ty],"objects":[cj(&contents[i]), cj(&contents[j])]}),
+                            json!({"kind":"pair","type":TYPES[ty],"objects":[cj(&contents[i]), cj(&contents[j])],"routes":[routes[i], routes[j]]}),
                         );
                     }
                 }
@@ -273,7 +352,7 @@ fn build_table(ty: usize, contents: Vec<Content>, acc: &mut Acc) -> Option<Table
     if failed {
         None
     } else {
-        Some(Table { ty, contents, cmp })
+        Some(Table { ty, contents, routes, cmp })
     }
 }
 
@@ -283,7 +362,13 @@ pub fn run(ctx: &Ctx) -> Report {
     let tables: Vec<(usize, Vec<Content>)> = (0..6)
         .map(|ty| {
             let cap2 = if ty % 2 == 0 { 32 } else { 64 };
-            let c = if ty < 4 { plain_contents(cap2, ty >= 2, thorough) } else { dual_contents(cap2) };
+            let mut c = if ty < 4 { plain_contents(cap2, ty >= 2, thorough) } else { dual_contents(cap2) };
+            // every applicable content a second time (duals: a third time), to be built through the re-use routes
+            let dup: Vec<Content> = c.iter().filter_map(|x| reuse_route(ty, x)).step_by(if ty < 4 { 3 } else { 1 }).collect();
+            c.extend(dup.iter().cloned());
+            if ty >= 4 {
+                c.extend(dup.into_iter().step_by(2));
+            }
             (ty, c)
         })
         .collect();
@@ -310,7 +395,7 @@ pub fn run(ctx: &Ctx) -> Report {
     // all triples: transitivity on the library's own cmp table (sub-corpus in quick)
     for t in &good_tables {
         let n = t.contents.len();
-        let idx: Vec<usize> = if thorough { (0..n).collect() } else { (0..n).step_by((n / 70).max(1)).collect() };
+        let idx: Vec<usize> = if thorough { (0..n).collect() } else { (0..n).step_by((n / 220).max(1)).collect() };
         let m = idx.len();
         let acc = par_shards(m, |ai, acc| {
             let a = idx[ai];
@@ -327,7 +412,7 @@ pub fn run(ctx: &Ctx) -> Report {
                         acc.violation(
                             format!("{} triple not transitive", TYPES[t.ty]),
                             "a <= b and b <= c but a > c".into(),
-                            json!({"kind":"triple","type":TYPES[t.ty],"objects":[cj(&t.contents[a]), cj(&t.contents[b]), cj(&t.contents[c])]}),
+                            json!({"kind":"triple","type":TYPES[t.ty],"objects":[cj(&t.contents[a]), cj(&t.contents[b]), cj(&t.contents[c])],"routes":[t.routes[a], t.routes[b], t.routes[c]]}),
                         );
                     }
                 }
@@ -341,7 +426,7 @@ pub fn run(ctx: &Ctx) -> Report {
         let mut acc = Acc::default();
         acc.evaluations += 1;
         acc.nontrivial += 1;
-        with_objects(t.ty, &t.contents, &mut |_, sorter| {
+        with_objects(t.ty, &t.contents, &t.routes, &mut |_, sorter| {
             let p1: Vec<usize> = (0..n).collect();
             let mut p2: Vec<usize> = (0..n).rev().collect();
             p2.rotate_left(n / 3);
@@ -358,7 +443,7 @@ pub fn run(ctx: &Ctx) -> Report {
                 acc.violation(
                     format!("{} sort", TYPES[t.ty]),
                     "sorting two permutations gives different or non-monotone sequences".into(),
-                    json!({"kind":"sort","type":TYPES[t.ty],"objects": t.contents.iter().map(cj).collect::<Vec<_>>()}),
+                    json!({"kind":"sort","type":TYPES[t.ty],"objects": t.contents.iter().map(cj).collect::<Vec<_>>(),"routes": t.routes}),
                 );
             }
         });
@@ -367,7 +452,7 @@ pub fn run(ctx: &Ctx) -> Report {
     rep.set("exhaustive", true);
     rep.set(
         "rule",
-        "per type a corpus of objects built to stress the order (block hashes differing only by trailing symbol-0 characters, proper prefixes, first difference 0 / 1 / 63, lengths near 0 and the capacity, three block sizes; dual hashes in groups sharing a normalized part with different raw runs in block hash 1 only / 2 only / both): ALL ordered pairs (== <=> equal text, equal => equal Hash stream, cmp antisymmetric, Equal <=> ==, operators consistent, cmp == documented order; duals with different normalized parts order as those parts) and ALL triples of the corpus (thorough) or of a strided sub-corpus (quick) for transitivity on the library's own cmp results; sorting two permutations.  Pairs / triples are distinct by construction.",
+        "per type a corpus of objects built to stress the order (block hashes differing only by trailing symbol-0 characters, proper prefixes, first difference 0 / 1 / 63, lengths near 0 and the capacity, three block sizes; a third of the objects a second time built through a route that re-uses a dirty destination (into_mut_long_form / try_into_mut_short into a previously used object; for duals init_from_raw_form on two kinds of previously used objects); dual hashes in groups sharing a normalized part with different raw runs in block hash 1 only / 2 only / both): ALL ordered pairs (== <=> equal text, equal => equal Hash stream, cmp antisymmetric, Equal <=> ==, operators consistent, cmp == documented order; duals with different normalized parts order as those parts) and ALL triples of the corpus (thorough) or of a strided sub-corpus (quick) for transitivity on the library's own cmp results; sorting two permutations.  Pairs / triples are distinct by construction.",
     );
     rep
 }
